@@ -80,8 +80,19 @@ JToRegex(e) ==
        Chk(Equiv(A, R), "to_regex.enfa")
        \cup Chk(\A i \in DOMAIN e.words : (e.words[i] \in acc) <=> Accepts(A, e.words[i]), "to_regex.accepts")
 
+(* ---- small queries of the API machine: counts, epsilon closure of one state, one-step successors ---- *)
+JMisc(e) ==
+  IF Has(e, "exc") THEN F("misc.noexc")
+  ELSE LET A == Aut(e.A) IN
+       Chk(e.ntrans = Cardinality(A.delta), "get_number_transitions")
+       \cup Chk(e.len = Cardinality(A.delta), "len")
+       \cup Chk(\A i \in DOMAIN e.eclose : ToSet(e.eclose[i][2]) = Eclose(A, {e.eclose[i][1]}), "eclose")
+       \cup Chk(\A i \in DOMAIN e.calls : ToSet(e.calls[i][3]) = Succ(A, {e.calls[i][1]}, e.calls[i][2]), "call")
+       \cup Chk(\A i \in DOMAIN e.isfinal : e.isfinal[i][2] = (e.isfinal[i][1] \in A.final), "is_final_state")
+       \cup Chk(ToSet(e.todict) = A.delta, "to_dict")
 Judge(e) ==
   CASE e.op = "build" -> JBuild(e)
+    [] e.op = "misc" -> JMisc(e)
     [] e.op = "accepts" -> JAccepts(e)
     [] e.op = "is_deterministic" -> JBool(e, IsDet(Aut(e.A)), "is_deterministic")
     [] e.op = "is_empty" -> JBool(e, IsEmptyLang(Aut(e.A)), "is_empty")
